@@ -2,7 +2,9 @@ package c18
 
 import (
 	"fmt"
+	"net"
 	"sync"
+	"sync/atomic"
 	"testing"
 	"time"
 
@@ -137,6 +139,133 @@ func TestQueueBeforeConnect(t *testing.T) {
 			return false
 		}) {
 			t.Fatalf("goroutines left after Disconnect of a peer without connection (%s):\n%s", desc, dumpOf(left))
+		}
+	})
+}
+
+// ---------------------------------------------------------------------------
+// Disconnect while AssociateConnection is publishing the connection: the
+// harness owns that one scheduling decision through the hook
+// peer.VerifHoldStatsLock (a statistics reader holds its lock for a moment).
+
+var recAssocRace = ev.New("C18", "disconnect-during-associate",
+	"an inbound or outbound peer.Peer; a statistics reader holds the statistics lock (hook) while AssociateConnection(conn) runs in one goroutine; Disconnect is called from another goroutine 0-30 ms later, "+
+		"then the reader lets go; also the plain orders (Disconnect first, AssociateConnection first); oracle: whatever the order, the connection handed to the peer is closed exactly once within the bound, "+
+		"WaitForDisconnect returns, no goroutine of the peer is left, no listener fires; non-trivial = the reader held the lock across both calls; distinct by (direction, order, delay)",
+	"reader-held-across-both", "disconnect-first", "associate-first")
+
+type closeCountConn struct {
+	net.Conn
+	closes int32
+	closed chan struct{}
+}
+
+func (c *closeCountConn) Close() error {
+	if atomic.AddInt32(&c.closes, 1) == 1 {
+		close(c.closed)
+	}
+	return c.Conn.Close()
+}
+
+func TestDisconnectDuringAssociate(t *testing.T) {
+	rapid.Check(t, func(t *rapid.T) {
+		n := nets[uni(t, "net", len(nets))]
+		inbound := coin(t, "inbound")
+		order := pick(t, "order", []string{"reader-held-across-both", "reader-held-across-both", "disconnect-first", "associate-first"})
+		delay := time.Duration(rapid.IntRange(0, 30).Draw(t, "delayMs")) * time.Millisecond
+		desc := fmt.Sprintf("net=%s inbound=%v order=%s delay=%v", n.params.Name, inbound, order, delay)
+		recAssocRace.Case(order == "reader-held-across-both", order, ev.HashS(desc), func() any { return desc })
+		before := map[int]bool{}
+		for _, g := range peerGoroutines() {
+			before[g.id] = true
+		}
+		var listeners int32
+		cfg := &peer.Config{UserAgentName: "verif", UserAgentVersion: "1.0.0", ChainParams: n.params, TrickleInterval: time.Second, AllowSelfConns: true}
+		cfg.Listeners.OnVersion = func(*peer.Peer, *wire.MsgVersion) *wire.MsgReject { atomic.AddInt32(&listeners, 1); return nil }
+		cfg.Listeners.OnVerAck = func(*peer.Peer, *wire.MsgVerAck) { atomic.AddInt32(&listeners, 1) }
+		var p *peer.Peer
+		if inbound {
+			p = peer.NewInboundPeer(cfg)
+		} else {
+			var err error
+			if p, err = peer.NewOutboundPeer(cfg, "10.0.0.2:8333"); err != nil {
+				t.Fatalf("VERIF-INFRA: %v", err)
+			}
+		}
+		ours, theirs := net.Pipe()
+		conn := &closeCountConn{Conn: ours, closed: make(chan struct{})}
+		// the remote end: swallow whatever the peer writes until the pipe is closed
+		remoteDone := make(chan struct{})
+		go func() {
+			defer close(remoteDone)
+			buf := make([]byte, 4096)
+			for {
+				if _, err := theirs.Read(buf); err != nil {
+					return
+				}
+			}
+		}()
+		var wg sync.WaitGroup
+		switch order {
+		case "reader-held-across-both":
+			release := peer.VerifHoldStatsLock(p)
+			wg.Add(2)
+			go func() { defer wg.Done(); p.AssociateConnection(conn) }()
+			go func() { defer wg.Done(); time.Sleep(delay); p.Disconnect() }()
+			time.Sleep(delay + 15*time.Millisecond)
+			release()
+		case "disconnect-first":
+			p.Disconnect()
+			p.AssociateConnection(conn)
+		default:
+			p.AssociateConnection(conn)
+			time.Sleep(delay / 4)
+			p.Disconnect()
+		}
+		wg.Wait()
+		if !awaitBound(func(d time.Duration) bool {
+			select {
+			case <-conn.closed:
+				return true
+			case <-time.After(d):
+				return false
+			}
+		}) {
+			theirs.Close()
+			t.Fatalf("the connection handed to the peer is still open after Disconnect returned (close calls: %d) (%s)", atomic.LoadInt32(&conn.closes), desc)
+		}
+		waited := make(chan struct{})
+		go func() { p.WaitForDisconnect(); close(waited) }()
+		if !awaitBound(func(d time.Duration) bool {
+			select {
+			case <-waited:
+				return true
+			case <-time.After(d):
+				return false
+			}
+		}) {
+			t.Fatalf("WaitForDisconnect does not return (%s)", desc)
+		}
+		theirs.Close()
+		<-remoteDone
+		var left []gor
+		if !awaitBound(func(d time.Duration) bool {
+			left = left[:0]
+			for _, g := range peerGoroutines() {
+				if !before[g.id] {
+					left = append(left, g)
+				}
+			}
+			if len(left) == 0 {
+				return true
+			}
+			time.Sleep(d / 100)
+			return false
+		}) {
+			t.Fatalf("goroutines of the peer left after Disconnect (%s):\n%s", desc, dumpOf(left))
+		}
+		if c := atomic.LoadInt32(&conn.closes); c < 1 {
+			t.Fatalf("connection closed %d times (%s)", c, desc)
 		}
 	})
 }
